@@ -3,6 +3,7 @@
 mod c09;
 mod c11;
 mod c12;
+mod c13;
 mod driver;
 mod geom;
 mod report;
@@ -46,6 +47,7 @@ fn main() {
         "C09" => c09::run(&mut rep, &tier, seed),
         "C11" => c11::run(&mut rep, &tier, seed),
         "C12" => c12::run(&mut rep, &tier, seed),
+        "C13" => c13::run(&mut rep, &tier, seed),
         other => Err(format!("no harness for property {other}")),
     };
     if let Err(e) = r {
